@@ -13,7 +13,7 @@ RULE = ('convert: Hypothesis draws (kind, value in +-[1e-12,1e12] incl. ints and
         'checker converts between ALL ordered unit pairs of the kind (607 ordered pairs over 13 kinds) and compares '
         'with an exact rational SI table (<=16 ulp), checks copy/in-place agreement and round trips; '
         'non-trivial = value != 0 (every case exercises pairs with u1 != u2). '
-        'compare: Hypothesis draws two operands in (possibly different) units, either FAR (SI magnitudes '
+        'compare: Hypothesis draws two operands (magnitudes 1e-30..1e30) in (possibly different) units, either FAR (SI magnitudes '
         'differ by a relative gap >= 1e-9, or in sign, or zero vs non-zero) or SAME (second obtained from the '
         'first by 1-3 library conversions, ending in another unit); all six operators are evaluated with '
         'either operand on the left and compared with the order of the exact SI magnitudes; non-trivial = '
@@ -84,10 +84,11 @@ def check_convert(case) -> Result:
     return res
 
 
-def s_value(kind):
+def s_value(kind, wide=False):
     sign = U.SIGN.get(kind)
     mag = st.one_of(
-        st.builds(lambda m, e: m * 10.0 ** e, st.floats(1, 10, exclude_max=True), st.integers(-12, 11)),
+        st.builds(lambda m, e: m * 10.0 ** e, st.floats(1, 10, exclude_max=True),
+                  st.integers(-30, 30) if wide else st.integers(-12, 11)),
         st.sampled_from([1.0, 0.5, 0.1, 0.3, 1e-3, 1e3, 60.0, 3600.0, 180.0, 9.80665, 2.5e-7, 12345.678]),
         st.integers(1, 10 ** 6),
     )
@@ -179,7 +180,7 @@ def s_compare(draw):
         vkind = constrained[0]
     else:
         vkind = ka
-    va = draw(s_value(vkind))
+    va = draw(s_value(vkind, wide=True))
     case = {'kind_a': ka, 'kind_b': kb, 'unit_a': ua, 'unit_b': ub, 'value_a': va, 'mode': mode}
     if mode == 'same':
         if ub == ua:
@@ -206,7 +207,7 @@ def s_compare(draw):
                 vb = base
                 case['value_a'] = 0.0
         else:
-            vb = draw(s_value(vkind))
+            vb = draw(s_value(vkind, wide=True))
         if vb == 0 and (U.SIGN.get(kb) == 'pos'):
             vb = 1.0
         if vb < 0 and U.SIGN.get(kb):
